@@ -61,7 +61,7 @@ def gen_exchange(rng):
     host = rng.choice(['example.com', 'h.test'])
     path = rng.choice(['/', '/a/b?x=1', '/%7Eu'])
     return {'url': 'http://%s%s' % (host, path), 'header': header, 'body': body, 'framing': framing,
-            'status': r['status'], 'mime': r['mime'],
+            'status': r['status'], 'mime': r['mime'], 'linesep': r['linesep'],
             'cuts': fakenet.random_cuts(rng, len(header) + len(body), rng.choice(['none', 'one', 'few', 'many'])),
             'compress': rng.random() < 0.5, 'digests': rng.random() < 0.85}
 
@@ -171,7 +171,8 @@ def check_exchange(ctx, ex, pid):
                 obs['meta'][uid] = {'kind': 'request', 'full': received, 'hdrlen': hl}
             elif r.type in (b'response', b'revisit') and ok:
                 obs['meta'][uid] = {'kind': 'response', 'full': ex['header'] + ex['body'], 'hdrlen': len(ex['header']),
-                                    'status': ex['status'], 'mime': ex['mime'], 'revisit': None}
+                                    'status': ex['status'], 'mime': ex['mime'], 'revisit': None,
+                                    'linesep': ex.get('linesep', False)}
         if ok and len([r for r in recs if r.type == b'response']) != 1:
             problems.append(('record-missing', 'write_record', 'completed exchange, %d response records' % len([r for r in recs if r.type == b'response'])))
     tags = ['client:' + outcome.split(':')[0].replace(' ', '-'), 'client:' + ex['framing']]
@@ -179,7 +180,8 @@ def check_exchange(ctx, ex, pid):
     if pid == 'C05':
         fails, _ = wc.oracle_c05(obs, by_file, problems, {})
     else:
-        exp = {'<urn:uuid:%s>' % u: (m.get('status'), m.get('mime')) for u, m in obs['meta'].items() if m['kind'] == 'response'}
+        exp = {'<urn:uuid:%s>' % u: (m.get('status'), m.get('mime'), m.get('linesep', False))
+               for u, m in obs['meta'].items() if m['kind'] == 'response'}
         fails = wc.oracle_c07(obs, by_file, obs['after'], exp)
     for kind, where, detail in fails:
         ctx.fail(kind, where, {'stream': 'client', 'exchange': ex}, detail + ' [real HTTP client, framing=%s]' % ex['framing'])
